@@ -9,7 +9,7 @@ EXTENDS XLExpr, XLEval, Json, IOUtils, CSV
 
 CONSTANT MaxOps
 
-BinSyms == <<"+", "-", "*", "/", "=", "<", "&">>
+BinSyms == <<"+", "-", "*", "/", "=", "<", ">", "&">>
 LeafPool == << [k |-> "num", s |-> <<50>>],                      \* 2
                [k |-> "var", name |-> "vc"],                      \* 3
                [k |-> "cell", s |-> <<67, 53>>],                  \* C5 = 5
